@@ -352,7 +352,7 @@ func (b *Built) Execute(r *rand.Rand) {
 	case "redefine":
 		before := env.Execs
 		nf, err := b.Target.Redefine(args...)
-		rd := EvRedef{Ev: "redef", OK: err == nil, Inputs: []Label{}, Given: []Label{}, Toks: []int{}, Execs: env.Execs - before}
+		rd := EvRedef{Ev: "redef", OK: err == nil, Inputs: []Label{}, Given: []Label{}, Toks: []int{}, Toks3: []int{}, Execs: env.Execs - before}
 		if err != nil {
 			rd.Detail = firstLine(err.Error())
 			var ua *am.ErrArgumentUnsatisfied
@@ -377,6 +377,14 @@ func (b *Built) Execute(r *rand.Rand) {
 			t := env.tok()
 			rd.Toks = append(rd.Toks, t)
 			call = append(call, apiArg(l, MkValue(l.Type, t).Interface(), r.Intn(6)))
+		}
+		if !s.NoFollowUp && len(rd.Inputs) > 0 {
+			for range rd.Inputs[:len(rd.Inputs)-1] {
+				rd.Toks3 = append(rd.Toks3, env.tok())
+			}
+		}
+		if rd.Toks3 == nil {
+			rd.Toks3 = []int{}
 		}
 		env.emit(rd)
 		if s.NoFollowUp {
@@ -414,8 +422,8 @@ func (b *Built) Execute(r *rand.Rand) {
 		if len(rd.Inputs) > 0 {
 			env.Phase = s.Phase0 + 3
 			var call3 []am.Arg
-			for _, l := range rd.Inputs[:len(rd.Inputs)-1] {
-				call3 = append(call3, apiArg(l, MkValue(l.Type, 0).Interface(), r.Intn(3)))
+			for i, l := range rd.Inputs[:len(rd.Inputs)-1] {
+				call3 = append(call3, apiArg(l, MkValue(l.Type, rd.Toks3[i]).Interface(), r.Intn(3)))
 			}
 			res3 := nf.Call(call3...)
 			ret3 := emptyRet("", s.Phase0+3)
